@@ -100,6 +100,12 @@ func genAddrs(r *gen.Rand, n int) []string {
 		default:
 			l = append(l, []string{"", "0x", "1", "zzzzzz"}[r.Intn(4)])
 		}
+		// a string that is another candidate with one small control byte in front (such strings are
+		// what any composite cache key "<tag byte> + address" can be confused with)
+		if len(l) > 0 && len(l) < n && r.Chance(1, 3) {
+			base := l[r.Intn(len(l))]
+			l = append(l, string([]byte{byte(1 + r.Intn(15))})+base)
+		}
 	}
 	return l
 }
